@@ -992,7 +992,12 @@ func c01IgnoreSet(r *an.Run) {
 		}
 	}
 
-	// PosMatcher: validity equality of pattern and candidate
+	posMatcherValidity(r)
+}
+
+// posMatcherValidity: validity equality of pattern and candidate in
+// PosMatcher.Match (obligations go to the current rule).
+func posMatcherValidity(r *an.Run) {
 	if pm := fn(r, engine, "PosMatcher.Match"); pm != nil {
 		const isValid = "(go/token.Pos).IsValid"
 		var eq *ssa.BinOp
